@@ -196,8 +196,8 @@ def run(ctx):
                    "`start`; otherwise the rest of the data is placed at the offset of the part already consumed")
     rb = ctx.anchor("R5", "qrecovery::recv::rcvbuf::RecvBuf::recv")
     if rb:
-        starts = rb.locals_named("start")
-        datas = rb.locals_named("data")
+        from rules.C08 import recv_roles
+        starts, datas, _ = recv_roles(rb)
         heads = sorted(set(v for u in rb.live_blocks() for v in rb.succ(u) if rb.dominates(v, u)))
         W = set(i for (i, j, p, rv, line) in rb.assigns() if len(p) == 1 and p[0] in starts and i not in (0,))
         cuts = []
